@@ -711,6 +711,10 @@ class C18(Property):
                         for _d, mode, val in case["tasks"]]
             return {"kind": "pf", "cpus": case["cpus"], "config_cpus": 1, "timeout": case.get("timeout") is not None,
                     "outcomes": outcomes, "events": obs.get("events", []), "impl": impl}
+        if kind == "rec":
+            if case["func"] not in ("sanitise", "genefind") or "given" not in obs:
+                return None
+            return {"kind": "workers", "func": case["func"], "records": obs["given"]}
         if kind == "prep":
             if "recs" not in obs or any(spec.get("original_id") for spec in case["records"]):
                 return None
@@ -737,6 +741,22 @@ class C18(Property):
             problems = list(obs.get("problems", [])) + [f"pickle: {p}" for p in obs.get("pickle_problems", [])]
             tags = [kind, case.get("func", "prep"), f"cpus{case['cpus']}", "error" if "error" in obs else "records"]
             corr = not problems
+            if kind == "rec" and drv is not None and "model" in drv:
+                # Lean model of the worker function (sanitiseSequence / ensureCdsInfo) on sequence, skip, #CDS
+                model = drv["model"]
+                tags.append("worker-model")
+                if "content" in model:
+                    if obs.get("content") != model["content"]:
+                        corr = False
+                        diff = next((i for i, (a, b) in enumerate(zip(obs.get("content") or [], model["content"])) if a != b), 0)
+                        got = (obs.get("content") or [None] * (diff + 1))[diff] if obs.get("content") else obs.get("error")
+                        problems.append(f"worker function model, record {diff}: {str(model['content'][diff])[:120]} vs "
+                                        f"implementation {str(got)[:120]}")
+                elif not str(obs.get("error", {}).get("e", "")).startswith(model.get("err", "?")):
+                    corr = False
+                    problems.append(f"worker function model raises {model.get('err')}, implementation {obs.get('error') or 'returned'}")
+                if not corr and len(problems) == 1:
+                    return Judgement(False, True, nontrivial=True, tags=tuple(tags), detail=problems[0][:600])
             if kind == "prep" and drv is not None and "recs" in obs and "model" in drv:
                 # Lean: the id set threaded in the parent (C16 model) = the one-cpu result (theorem
                 # state_threaded_in_parent_cpus_invariant); `shipped` = a copy per task batch
